@@ -172,7 +172,7 @@ EXPORT int _vswprintf_s_chk(wchar_t *restrict dest, rsize_t dmax,
         } else {
             wchar_t *tmp = (wchar_t *)malloc(RSIZE_MAX_WSTR * sizeof(wchar_t));
             if (!tmp)
-                return -(ESNOSPC);
+                goto nospc;
             ret = vswprintf(tmp, RSIZE_MAX_WSTR, fmt, ap2);
             free(tmp);
         }
